@@ -128,8 +128,9 @@ def pOps (pool : Array ObjRec) : Nat → Tok → Option (List HStep × Tok)
     let st ← if s.startsWith "Q" then some (HStep.query id)
       else do
         let o ← pool[id]?
-        if s.startsWith "I" then some (HStep.op s (Op.ins o))
-        else if s.startsWith "D" then some (HStep.op s (Op.del o)) else none
+        -- lower case (C11 only): a silent operation, performed without a reported step
+        if s.startsWith "I" || s.startsWith "i" then some (HStep.op s (Op.ins o))
+        else if s.startsWith "D" || s.startsWith "d" then some (HStep.op s (Op.del o)) else none
     let (r, t) ← pOps pool n t
     pure (st :: r, t)
   | _, _ => none
